@@ -192,6 +192,51 @@ func baseOpts(g *core.G, weighted bool) core.TreeOpts {
 	return o
 }
 
+// aliasGroups: names that are distinct strings but look alike (equal as numbers, equal
+// up to case, one a prefix of the other).  Anything that orders or identifies taxa by
+// something coarser than the string itself confuses them.
+var aliasGroups = [][]string{
+	{"7", "07", "007", "7.0", "+7", "70"},
+	{"1", "01", "001", "10", "010", "1e0"},
+	{"Abc", "abc", "ABC", "abcx", "abc1"},
+	{"-3", "3", "03", "3x", "+3"},
+}
+
+// alias renames some tips of both trees (the same tip gets the same new name in both).
+func alias(g *core.G, intsOnly bool, trees ...*core.N) {
+	seen := map[string]bool{}
+	var names []string
+	for _, t := range trees {
+		for _, l := range leaves(t) {
+			if !seen[l.Name] {
+				seen[l.Name] = true
+				names = append(names, l.Name)
+			}
+		}
+	}
+	grp := aliasGroups[g.Intn(len(aliasGroups))]
+	if intsOnly {
+		grp = []string{"7", "07", "007", "70", "0007"}
+	}
+	k := 2 + g.Intn(len(grp)-1)
+	if k > len(names) {
+		k = len(names)
+	}
+	perm := g.R.Perm(len(names))
+	gperm := g.R.Perm(len(grp))
+	m := map[string]string{}
+	for i := 0; i < k; i++ {
+		m[names[perm[i]]] = grp[gperm[i]]
+	}
+	for _, t := range trees {
+		for _, l := range leaves(t) {
+			if nn, ok := m[l.Name]; ok {
+				l.Name = nn
+			}
+		}
+	}
+}
+
 // pair draws (reference, compared).  Outside the property's hypotheses (rooted
 // trees, single-child nodes) with a small probability: those cases check the
 // model against the code only.
@@ -282,6 +327,9 @@ func pair(g *core.G, weighted bool, forceKind int) (*core.N, *core.N) {
 	}
 	if weighted && kind != 0 && g.Chance(0.5) {
 		perturbLengths(g, &o, c, 0.3)
+	}
+	if g.Chance(0.3) {
+		alias(g, false, r, c)
 	}
 	if g.Chance(0.5) {
 		return c, r
@@ -784,6 +832,9 @@ func Run(c *core.Ctx) {
 					perturbLengths(g, &o, cn, 0.3)
 				}
 				cns = append(cns, cn)
+			}
+			if g.Chance(0.3) {
+				alias(g, true, append([]*core.N{rn}, cns...)...)
 			}
 			if g.Chance(0.15) {
 				bad := cns[g.Intn(len(cns))]
